@@ -548,14 +548,20 @@ def check_op(ctx, B, stream, opname, line, pres, oracle, rp, want_names=True):
         elif pres[1] not in ("RecursionError", "timeout"):
             mismatch(ctx, stream + ":" + opname, "implementation raised %s on %s where the reference succeeds" % (pres[1], sexp.dumps(line)[:400]))
     p = ("ok", wstr(pres[1])) if pres[0] == "ok" else ("err",)
+    pa = sexp.dumps(kwire.canon_term(wire(pres[1]))) if pres[0] == "ok" else None
 
     def cb(ans, ln):
         m = model_term(ans)
         if m[0] == "err" and m[1] == "fuel" or pres[0] == "err" and pres[1] in ("RecursionError", "timeout"):
             ctx.count(opname + ":divergence-or-depth")
             return
-        if (m[0], m[1] if m[0] == "ok" else None) != (p[0], p[1] if p[0] == "ok" else None):
+        # the property speaks of terms up to `==`: the model's answer and the implementation's
+        # have to be alpha-equivalent; the suggested bound names are reported as information only
+        ma = sexp.dumps(kwire.canon_term(ans[1])) if m[0] == "ok" else None
+        if (m[0], ma) != (p[0], pa):
             mismatch(ctx, stream + ":" + opname, "%s: python=%s model=%s" % (ln[:500], (pres[0], p[1][:300] if p[0] == "ok" else pres[1]), sexp.dumps(ans)[:300]))
+        elif m[0] == "ok" and m[1] != p[1]:
+            ctx.count("info:bound-names-differ-from-model:" + opname)
     B.ask(line, cb)
 
 
@@ -612,19 +618,24 @@ def eq_hash_case(ctx, B, t, u, tag):
     B.ask(["aeq", wire(t), wire(u)], cb)
 
     def cbh(ans, ln):
-        # the model's hash trees are equal iff the Python hashes are (collisions aside)
+        # information only (how __hash__ builds its value is not part of the property): does
+        # "model trees equal" coincide with "Python hashes equal"?
         same = pycall(lambda: hash(t) == hash(u))
-        if same != ("ok", ans == "T"):
-            mismatch(ctx, "a:hasheq", "%s: hash(t)==hash(u) is %s, model trees equal: %s" % (ln[:500], same, ans))
+        ctx.count("info:hash-nest-%s" % ("agrees-with-model" if same == ("ok", ans == "T") else "differs-from-model"))
     B.ask(["hasheq", wire(t), wire(u)], cbh)
 
 
 def hash_case(ctx, B, t):
+    """information only: is hash(t) the hash of the tuple nest of the model?  (A __hash__ that is
+    built differently but still gives equal terms equal hashes satisfies the property.)"""
     h = pycall(lambda: hash(t))
 
     def cb(ans, ln):
-        if ans == "bad-op" or h[0] != "ok" or pyhash(ans) != h[1]:
-            mismatch(ctx, "a:hashtree", "%s: hash(t)=%s, hash of the model's tuple nest=%s" % (ln[:400], h, None if ans == "bad-op" else pyhash(ans)))
+        try:
+            same = ans != "bad-op" and h[0] == "ok" and pyhash(ans) == h[1]
+        except Exception:  # noqa
+            same = False
+        ctx.count("info:hash-value-%s" % ("is-the-model-nest" if same else "is-not-the-model-nest"))
     B.ask(["hashtree", wire(t)], cb)
 
 
@@ -730,6 +741,30 @@ def ops_case(ctx, B, rng, dg):
         ctx.count("subst_bound:open-argument")
     r = pycall(lambda: lam.subst_bound(arg))
     check_op(ctx, B, "a", "subst_bound", ["substbound", wire(lam), wire(arg)], r, o_subst_bound(lam.body, arg), rp)
+    if pycall(lambda: arg.is_open()) == ("ok", False) and r[0] == "ok":
+        # the heap-level model of subst_bound with its (_id, depth) cache (Model.lean (e)) on the
+        # same DAG: same term up to bound names
+        d = dag_to([lam.body, arg])
+        evs = []
+        for i, nd in enumerate(d["nodes"]):
+            k = nd[0]
+            if k in ("sv", "v", "c"):
+                node = [k, sexp.enc(nd[1]), sexp.loads(nd[2])]
+            elif k == "ap":
+                node = ["ap", nd[1], nd[2]]
+            elif k == "ab":
+                node = ["ab", sexp.enc(nd[1]), sexp.loads(nd[2]), nd[3]]
+            else:
+                node = ["b", nd[1]]
+            evs.append(["mk", i, node])
+        want = sexp.dumps(kwire.canon_term(wire(r[1])))
+
+        def cbs(ans, ln, want=want):
+            got = sexp.dumps(kwire.canon_term(ans[1])) if ans != "bad-op" and ans[0] == "ok" else None
+            ctx.count("subst_bound:heap-cache-model-%s" % ("agrees" if got == want else "differs"))
+            if got != want:
+                mismatch(ctx, "a:subst_bound-heap", "%s: python %s, heap model %s" % (ln[:400], want[:300], (got or str(ans))[:300]))
+        B.ask(["sbheap", True, evs, d["roots"][1], d["roots"][0], 0], cbs)
     r2 = pycall(lambda: rx.beta_conv())
     check_op(ctx, B, "a", "beta_conv", ["betaconv", wire(rx)], r2, o_subst_bound(lam.body, arg), rp)
     if r[0] == "ok":
@@ -1238,7 +1273,7 @@ def share_roots(a, b):
 ALIAS_KEY = "stale-hash:subst_type_inplace:alias-outside-target"
 
 
-def inplace_case(ctx, rng, dg, replay=None):
+def inplace_case(ctx, rng, dg, replay=None, B=None):
     """subst_type_inplace on a DAG: the target must become the instantiated term (every shared
     sub-object updated ONCE), and hash / == must be those of its new structure"""
     from kernel.type import TyInst
@@ -1280,15 +1315,57 @@ def inplace_case(ctx, rng, dg, replay=None):
     for kind, what, key in fails:
         if replay is None:
             report(ctx, kind, what, rp, key=key)
+    if B is not None:
+        # the same scenario in the model's heap with memoised hashes (Model.lean (d)): the model
+        # over-approximates which objects carry a memo (all that `hash` reaches), so only
+        # "model consistent => implementation consistent" is demanded
+        evs = []
+        for i, n in enumerate(rp["dag"]["nodes"]):
+            k = n[0]
+            if k in ("sv", "v", "c"):
+                node = [k, sexp.enc(n[1]), sexp.loads(n[2])]
+            elif k == "ap":
+                node = ["ap", n[1], n[2]]
+            elif k == "ab":
+                node = ["ab", sexp.enc(n[1]), sexp.loads(n[2]), n[3]]
+            else:
+                node = ["b", n[1]]
+            evs.append(["mk", i, node])
+        roots = rp["dag"]["roots"]
+        evs += [["hash", a] for a in roots]
+        evs.append(["inplace", kwire.tyinst_to(d), roots[0]])
+        evs += [["obs", a] for a in roots]
+        pyobs = []
+        for t in [target] + others:
+            fresh = rebuild(t)
+            pyobs.append((pycall(lambda: hash(t) == hash(fresh)) == ("ok", True), sexp.dumps(kwire.canon_term(wire(t)))))
+        clean = not any(kind == "subst_type_inplace" for kind, _, _ in fails)
+
+        def cb(ans, ln, pyobs=pyobs, clean=clean):
+            if ans == "bad-op" or ans[0] != "ok" or len(ans) - 1 != len(pyobs):
+                mismatch(ctx, "b:inplace-model", "the model cannot follow %s: %s" % (ln[:400], ans))
+                return
+            for (pcons, pstruct), m in zip(pyobs, ans[1:]):
+                mstruct = sexp.dumps(kwire.canon_term(m[2])) if m[2] != "none" else None
+                if clean and mstruct != pstruct:
+                    mismatch(ctx, "b:inplace-structure", "after subst_type_inplace the implementation has %s, the model %s; %s" % (pstruct[:300], (mstruct or "none")[:300], ln[:300]))
+                    return
+                if m[1] == "T" and not pcons:
+                    mismatch(ctx, "b:inplace-memo", "the model predicts a consistent hash, the implementation's is stale: %s" % ln[:500])
+                    return
+                ctx.count("info:inplace-memo-model-%s-impl-%s" % ("consistent" if m[1] == "T" else "stale", "consistent" if pcons else "stale"))
+        B.ask(["memo", True, evs], cb)
     return fails
 
 
 def stream_inplace(ctx):
     rng = ctx.rng("inplace")
+    B = Batch(ctx, "b-inplace")
     for i in range(ctx.scale(150, 3000)):
         # a new pool per case: the objects of an earlier case have been rewritten in place
-        inplace_case(ctx, rng, DagGen(rng, share=0.5))
+        inplace_case(ctx, rng, DagGen(rng, share=0.5), B=B)
         ctx.case(("inplace", i), nontrivial=False)
+    B.flush()
 
 
 # ------------------------------------------------------------------ stream (c): terms obtained by parsing text
@@ -1507,6 +1584,11 @@ def stream_order(ctx):
         if any(x[0] != "ok" for x in (ab, ba, bc, ac)):
             report(ctx, "order-type-total", "fast_compare_typ raised: %s %s %s %s" % (ab, ba, bc, ac), rp)
             continue
+        eqab = pycall(lambda: a == b)
+        if eqab != ("ok", tkey(a) == tkey(b)):
+            report(ctx, "eq-type", "Type.__eq__ answered %s, structures %s" % (eqab, "identical" if tkey(a) == tkey(b) else "different"), rp)
+        elif eqab == ("ok", True) and pycall(lambda: hash(a) == hash(b)) != ("ok", True):
+            report(ctx, "hash-type", "equal types with different hashes", rp)
         if sgn(ab[1]) != -sgn(ba[1]):
             report(ctx, "order-type-antisym", "fast_compare_typ(a,b)=%s, (b,a)=%s" % (ab[1], ba[1]), rp)
         if (ab[1] == 0) != (tkey(a) == tkey(b)) or (ab[1] == 0) != (a == b):
@@ -1659,13 +1741,14 @@ def replay(ctx, rp):
                if (a == b) != (skey(a) == skey(b)) or (skey(a) == skey(b) and hash(a) != hash(b))]
         print("inconsistent pairs:", bad)
         return bool(bad)
-    if kind.startswith("order-type") or kind.startswith("type-lt"):
+    if kind.startswith("order-type") or kind.startswith("type-lt") or kind in ("eq-type", "hash-type"):
         from kernel import term_ord
         a, b, c = ty_of_js(r["a"]), ty_of_js(r["b"]), ty_of_js(r["c"])
         f = term_ord.fast_compare_typ
         ab, ba, bc, ac = f(a, b), f(b, a), f(b, c), f(a, c)
         print("cmp:", ab, ba, bc, ac, " a==b:", a == b, " a<b, b<a:", a < b, b < a)
         return (sgn(ab) != -sgn(ba) or (ab == 0) != (tkey(a) == tkey(b)) or (ab <= 0 and bc <= 0 and ac > 0)
+                or (a == b) != (tkey(a) == tkey(b)) or (a == b and hash(a) != hash(b))
                 or [a < b, b < a, a == b].count(True) != 1 or (a <= b) != (a < b or a == b) or (a < b and b < c and not a < c))
     if kind.startswith("order-"):
         from kernel import term_ord
@@ -1791,18 +1874,25 @@ def run(ctx):
 
 MANIFEST = {
     "text": "Lean theorems about the shared kernel model and the C03 model: == (structural branch) is equality of name-erased terms with identical "
-            "type annotations and an equivalence; equal terms/types have equal hash trees (the tuple nest __hash__ hashes, incl. CONJ/DISJ/LET); "
-            "fast_compare / fast_compare_typ are total orders whose equivalence is ==; in a heap whose allocator may return any free address and "
-            "whose objects may be freed at any time every constructor / Term(t) / copy keeps `_id = own address`, hence the _id fast path of == "
-            "agrees with the structural comparison (and fails on the pinned tree: counterexample history of 4 steps); subst_type, subst, "
-            "subst_bound, abstract_over/Lambda, beta_conv, beta_norm preserve well-typedness, the type and the denotation in every finite "
-            "standard model (for every valuation and environment: no capture). The model is tied to kernel/term.py, type.py, term_ord.py by "
-            "differential execution on generated DAG terms, object histories with the real addresses, and parsed terms; independent oracles "
-            "(field-level structure, re-implementations, type preservation, `sem` in finite models, order axioms) judge the implementation.",
+            "type annotations and an equivalence; equal terms/types have equal hash trees (the tuple nest __hash__ hashes, incl. CONJ/DISJ/LET), and "
+            "the memoised _hash_val is the hash of the CURRENT nest for every history of constructors, Term(t), copy, frees, hash calls and "
+            "subst_type_inplace as long as no memoised term outside the rewritten objects shares one of them (hash_memo_sound; counterexamples for "
+            "the alias case = the known finding, and for dropping the memo only on nodes with a type annotation); fast_compare / fast_compare_typ "
+            "are total orders whose equivalence is ==; in a heap whose allocator may return any free address and whose objects may be freed at "
+            "any time every constructor / Term(t) / copy keeps `_id = own address`, hence the _id fast path of == agrees with the structural "
+            "comparison (fails on the pinned tree: 4-step counterexample), and subst_bound run on the heap with its (_id, depth)-keyed cache and "
+            "_id-based re-use returns a representation of the pure result (substBound_cache_sound; counterexample for the key without depth); "
+            "subst_type, subst, subst_bound, abstract_over/Lambda (closed bodies), beta_conv, beta_norm preserve well-typedness, the type and the "
+            "denotation in every finite standard model (for every valuation and environment: no capture). The model is tied to kernel/term.py, "
+            "type.py, term_ord.py by differential execution on generated DAG terms, object histories with the real addresses, and parsed terms; "
+            "the VERDICT rests on independent oracles on the implementation (field-level structure, == implies equal hashes for terms and types, "
+            "re-implementations up to alpha, type preservation, `sem` in finite models, order axioms).",
     "note": "Trusted: Lean kernel; propext/Classical.choice/Quot.sound; Python's tuple/str hashing and str order; the correspondence is only as "
-            "good as the generated cases. beta_norm: if it returns (fuel); termination not proved. The _id-keyed caches inside subst/subst_bound/"
-            "incr_boundvars/abstract_over are covered by the injectivity of _id on live objects (theorem) plus differential testing on shared "
-            "DAGs, not by a heap-level model of each cache. __copy__, deepcopy, pickle: correspondence only. Infinite models outside the property.",
+            "good as the generated cases. How __hash__ builds its value and which bound names results carry are NOT checked (reported as "
+            "info:* counters): a refactoring that keeps 'equal terms have equal hashes' passes. beta_norm: if it returns (fuel); termination not "
+            "proved. The caches of subst / incr_boundvars / abstract_over short cuts are covered by _id injectivity (theorem) plus differential "
+            "testing on shared DAGs; subst_bound's cache is modelled on the heap for closed arguments only. __copy__, deepcopy, pickle: "
+            "correspondence only. Infinite models outside the property.",
     "design_ref": "DESIGN.md 4/C03",
 }
 FINDINGS = [
